@@ -13,6 +13,13 @@ CHECKS = [
              "random schemas/values are trace-validated by TLC (SerAllowed + decoded = denoted value).",
      "note": TLC_NOTE,
      "technique": "TLA+ spec (AvroBinary.tla, SerdeModel.tla) + TLC bounded enumeration replayed into the code + TLC trace validation of recorded round trips"},
+    {"property_id": "C02", "level": "model_checking", "design_ref": "DESIGN.md §6 C02",
+     "text": "TLC evaluates Den (SerdeModel.tla: must-ok / must-err / free + denoted values) on the whole (schema x presentation) matrix - every "
+             "effective node kind and small unions x every serde call with boundary values - checks the relation's consistency, and each cell is "
+             "serialized by the real code: must-err cells must fail, Ok bytes must be an encoding of a denoted value. Mutated presentations of random "
+             "values of random schemas are serialized and every event is trace-validated by TLC (SerAllowed).",
+     "note": TLC_NOTE,
+     "technique": "TLA+ spec (SerdeModel.tla Den/SerAllowed, SerdePres.tla catalogue) enumerated by TLC and replayed into the serializer + TLC trace validation of recorded serialization events"},
     {"property_id": "C03", "level": "model_checking", "design_ref": "DESIGN.md §6 C03",
      "text": "TLC checks, for every (schema, value) of the scope grammar x boundary values, that the specification's decoder inverts every "
              "block-layout variant and rejects every single-point malformation and proper prefix; each case is replayed on the real decoder "
